@@ -11,13 +11,16 @@ import (
 	"fmt"
 	"math/rand"
 	"net/http"
+	"runtime"
 	"sort"
+	"strconv"
 	"strings"
 	"sync"
 	"sync/atomic"
 	"time"
 
 	"github.com/Query-farm/vgi-rpc-go/vgirpc"
+	"github.com/apache/arrow-go/v18/arrow"
 )
 
 type c29Prog struct {
@@ -28,9 +31,10 @@ type c29Prog struct {
 	Acc  bool     `json:"acc,omitempty"`
 	TTL  int64    `json:"ttl,omitempty"` // seconds; 0 = registry default
 	Body []string `json:"body,omitempty"`
-	Out  string   `json:"out,omitempty"` // ok | err | panic
-	D    int64    `json:"d,omitempty"`   // adv: seconds
-	B    bool     `json:"b,omitempty"`   // drain flag
+	Out  string   `json:"out,omitempty"`    // ok | err | panic
+	Strm bool     `json:"stream,omitempty"` // req: run the script inside the first Produce turn of a producer stream (/sact/init)
+	D    int64    `json:"d,omitempty"`      // adv: seconds
+	B    bool     `json:"b,omitempty"`      // drain flag
 }
 
 type c29In struct {
@@ -58,27 +62,59 @@ type c29State struct {
 	label  int
 	closed atomic.Int32
 	cs     *c29Case
+	inCall map[int]bool // threads currently inside a handler on this (resumed) session; guarded by cs.mu
+}
+
+type c29CloseEv struct {
+	label, by int
+	under     bool // some OTHER thread was inside its handler on this session when Close() ran
+}
+
+// curGoid returns the current goroutine id (used only to attribute a Close()
+// call to the request / operator step that caused it).
+func curGoid() int64 {
+	var b [64]byte
+	n := runtime.Stack(b[:], false)
+	f := strings.Fields(string(b[:n]))
+	if len(f) < 2 {
+		return -1
+	}
+	id, _ := strconv.ParseInt(f[1], 10, 64)
+	return id
 }
 
 func (s *c29State) Close() error {
 	s.closed.Add(1)
-	s.cs.mu.Lock()
-	s.cs.closeBuf = append(s.cs.closeBuf, s.label)
-	s.cs.mu.Unlock()
+	g := curGoid()
+	cs := s.cs
+	cs.mu.Lock()
+	by, ok := cs.goThread[g]
+	if !ok {
+		by = cs.sysThread
+	}
+	under := false
+	for u := range s.inCall {
+		if u != by {
+			under = true
+		}
+	}
+	cs.closeBuf = append(cs.closeBuf, c29CloseEv{s.label, by, under})
+	cs.mu.Unlock()
 	return nil
 }
 
 type c29Thread struct {
-	prog    c29Prog
-	phase   string // "", "blocked", "run", "done"
-	gate    chan struct{}
-	ack     chan struct{}
-	done    chan HTTPResp
-	buf     []string // events produced by this thread's goroutine
-	left    int      // handler actions left
-	held    int      // label whose lock this request holds (-1 none)
-	waitsOn int      // label it is blocked on (-1)
-	opened  int      // label of last successfully opened session (-1)
+	prog       c29Prog
+	phase      string // "", "blocked", "run", "done"
+	gate       chan struct{}
+	ack        chan struct{}
+	done       chan HTTPResp
+	buf        []string // events produced by this thread's goroutine
+	left       int      // handler actions left
+	held       int      // label whose lock this request holds (-1 none)
+	waitsOn    int      // label it is blocked on (-1)
+	opened     int      // label of last successfully opened session (-1)
+	wasBlocked bool
 }
 
 type c29Case struct {
@@ -86,7 +122,9 @@ type c29Case struct {
 	in        c29In
 	srv       []*vgirpc.HttpServer
 	th        []*c29Thread
-	closeBuf  []int
+	closeBuf  []c29CloseEv
+	goThread  map[int64]int
+	sysThread int
 	nextLabel int
 	entries   map[int]any
 	trace     []string
@@ -107,18 +145,27 @@ func (cs *c29Case) push(t int, ev string) {
 	cs.mu.Unlock()
 }
 
-func c29Handler(_ context.Context, cc *vgirpc.CallContext, p PInt) (int64, error) {
+// c29Body is the scripted user code of request thread t: it reports the session
+// it sees on entry, marks itself as being in a call on that session, performs
+// the gated OpenSession / CloseSession actions, parks on the final gate and
+// returns the scripted outcome.
+func c29Body(cc *vgirpc.CallContext, t int) string {
 	cs := c29cur.Load()
-	t := int(p.X)
 	th := cs.th[t]
 	label, stale := -1, false
 	if st, ok := cc.Session().(*c29State); ok && st != nil {
 		label, stale = st.label, st.closed.Load() > 0
+		cs.mu.Lock()
 		if e := vgirpc.VerifStickyEntry(cc); e != nil {
-			cs.mu.Lock()
 			cs.entries[label] = e
-			cs.mu.Unlock()
 		}
+		st.inCall[t] = true
+		cs.mu.Unlock()
+		defer func() {
+			cs.mu.Lock()
+			delete(st.inCall, t)
+			cs.mu.Unlock()
+		}()
 	}
 	sl := "None"
 	if label >= 0 {
@@ -137,7 +184,7 @@ func c29Handler(_ context.Context, cc *vgirpc.CallContext, p PInt) (int64, error
 			lab := cs.nextLabel
 			cs.nextLabel++
 			cs.mu.Unlock()
-			st := &c29State{label: lab, cs: cs}
+			st := &c29State{label: lab, cs: cs, inCall: map[int]bool{}}
 			err := cc.OpenSession(st, time.Duration(th.prog.TTL)*time.Second)
 			var a string
 			switch err.(type) {
@@ -164,7 +211,11 @@ func c29Handler(_ context.Context, cc *vgirpc.CallContext, p PInt) (int64, error
 		th.ack <- struct{}{}
 	}
 	<-th.gate
-	switch th.prog.Out {
+	return th.prog.Out
+}
+
+func c29Handler(_ context.Context, cc *vgirpc.CallContext, p PInt) (int64, error) {
+	switch c29Body(cc, int(p.X)) {
 	case "err":
 		return 0, &vgirpc.RpcError{Type: "ValueError", Message: "scripted"}
 	case "panic":
@@ -172,6 +223,29 @@ func c29Handler(_ context.Context, cc *vgirpc.CallContext, p PInt) (int64, error
 	}
 	return 1, nil
 }
+
+// c29Stream is the producer-stream form: the same script runs inside the first
+// Produce turn, which the HTTP transport folds into the /init request (under the
+// same per-session lock).
+type c29Stream struct{ T int }
+
+func (st *c29Stream) Produce(_ context.Context, out *vgirpc.OutputCollector, cc *vgirpc.CallContext) error {
+	switch c29Body(cc, st.T) {
+	case "err":
+		return &vgirpc.RpcError{Type: "ValueError", Message: "scripted"}
+	case "panic":
+		panic("scripted panic")
+	}
+	return out.Finish()
+}
+
+func c29StreamInit(_ context.Context, _ *vgirpc.CallContext, p PInt) (*vgirpc.StreamResult, error) {
+	return &vgirpc.StreamResult{OutputSchema: c29OutSchema, State: &c29Stream{T: int(p.X)}}, nil
+}
+
+var c29OutSchema = arrow.NewSchema([]arrow.Field{{Name: "v", Type: arrow.PrimitiveTypes.Int64}}, nil)
+
+func init() { vgirpc.RegisterStateType(&c29Stream{}) }
 
 func c29Auth(r *http.Request) (*vgirpc.AuthContext, error) {
 	var i int
@@ -189,12 +263,13 @@ func c29AuthOf(i int) (*vgirpc.AuthContext, error) {
 
 func c29NewCase(in c29In) *c29Case {
 	cs := &c29Case{in: in, entries: map[int]any{}, minted: map[int]string{}, mintLabel: map[int]int{},
-		heldBy: map[int]int{}, waiter: map[int]int{}}
+		heldBy: map[int]int{}, waiter: map[int]int{}, goThread: map[int64]int{}, sysThread: -1}
 	key := []byte("0123456789abcdef0123456789abcdef")
 	for w := 0; w < c29Workers; w++ {
 		s := vgirpc.NewServer()
 		s.SetServerID(fmt.Sprintf("worker-%d", w))
 		vgirpc.Unary(s, "act", c29Handler)
+		vgirpc.Producer(s, "sact", c29OutSchema, c29StreamInit)
 		h, err := vgirpc.NewHttpServerWithKey(s, key)
 		if err != nil {
 			panic(err)
@@ -220,9 +295,12 @@ func (cs *c29Case) flush(t int, withCloses bool) int {
 	defer cs.mu.Unlock()
 	n := 0
 	if withCloses {
-		sort.Ints(cs.closeBuf)
-		for _, l := range cs.closeBuf {
-			cs.trace = append(cs.trace, App("C29.EClosed", N(uint64(l))))
+		sort.SliceStable(cs.closeBuf, func(i, j int) bool { return cs.closeBuf[i].label < cs.closeBuf[j].label })
+		for _, c := range cs.closeBuf {
+			cs.trace = append(cs.trace, App("C29.EClosed", N(uint64(c.label))))
+			if c.under {
+				cs.trace = append(cs.trace, App("C29.EUnder", Nat(c.by), N(uint64(c.label))))
+			}
 		}
 		n = len(cs.closeBuf)
 		cs.closeBuf = nil
@@ -342,11 +420,17 @@ func (cs *c29Case) start(t int) {
 	h := cs.srv[p.W%c29Workers]
 	cs.emit(App("C29.EStart", Nat(t)))
 	go func() {
-		if p.Kind == "del" {
+		cs.mu.Lock()
+		cs.goThread[curGoid()] = t
+		cs.mu.Unlock()
+		switch {
+		case p.Kind == "del":
 			th.done <- DoHTTP(h, "DELETE", "/__session__", nil, hdr)
-			return
+		case p.Strm:
+			th.done <- DoHTTP(h, "POST", "/sact/init", ReqBytes(PIntBatch(int64(t)), StdMeta("sact", "", "")), hdr)
+		default:
+			th.done <- DoHTTP(h, "POST", "/act", ReqBytes(PIntBatch(int64(t)), StdMeta("act", "", "")), hdr)
 		}
-		th.done <- DoHTTP(h, "POST", "/act", ReqBytes(PIntBatch(int64(t)), StdMeta("act", "", "")), hdr)
 	}()
 	wait := c29Long
 	if expectBlock {
@@ -374,6 +458,8 @@ func (cs *c29Case) start(t int) {
 			return
 		}
 		cs.blocks++
+		th.wasBlocked = true
+		cs.flush(t, true) // base code: nothing; a Close() before blocking shows up here
 		th.phase = "blocked"
 		th.waitsOn = lab
 		cs.waiter[lab] = t
@@ -390,6 +476,9 @@ func (cs *c29Case) stepThread(t int) {
 		cs.eff = append(cs.eff, t) // stutter
 		return
 	case "":
+		cs.mu.Lock()
+		cs.sysThread = t
+		cs.mu.Unlock()
 		switch p.Kind {
 		case "req", "del":
 			cs.start(t)
@@ -611,6 +700,11 @@ func c29Run(in c29In) CaseOut {
 	add(strings.Contains(tr, "C29.OPanic"), "handler-panic")
 	add(strings.Contains(tr, "C29.OErr"), "handler-err")
 	add(strings.Contains(tr, ") true)") && strings.Contains(tr, "C29.EEnter"), "maybe-stale")
+	add(strings.Contains(tr, "C29.EUnder"), "close-under-call")
+	for _, th := range cs.th {
+		add(th.prog.Kind == "req" && th.prog.Strm, "stream-turn")
+		add(th.prog.Kind == "del" && th.wasBlocked, "delete-during-call")
+	}
 	add(cs.stuck, "stuck")
 	add(len(locked) > 0, "lock-left-held")
 	resumed, stale, blocked := 0, 0, 0
@@ -709,6 +803,22 @@ func c29Boundary() []c29In {
 		open(1), c29Req(0, 1, 0, false, 0, "ok", "close"), c29Prog{Kind: "adv", D: 200}, c29Prog{Kind: "reap", W: 0})
 	add("handler holds, shutdown underneath, waiter then runs stale, panic releases", []int{0, 0, 0, 1, 2, 3, 1, 2},
 		open(1), c29Req(0, 1, 0, false, 0, "panic"), c29Req(0, 1, 0, false, 0, "ok"), c29Prog{Kind: "shut", W: 0})
+	strm := func(p c29Prog) c29Prog { p.Strm = true; return p }
+	del := c29Prog{Kind: "del", W: 0, C: 1, Tk: 0}
+	add("DELETE during a unary call: waits for the handler, then closes", []int{0, 0, 0, 1, 2, 1},
+		open(1), c29Req(0, 1, 0, false, 0, "ok"), del)
+	add("DELETE during a stream turn", []int{0, 0, 0, 1, 2, 1},
+		open(1), strm(c29Req(0, 1, 0, false, 0, "ok")), del)
+	add("DELETE during a stream turn that panics", []int{0, 0, 0, 1, 2, 1},
+		open(1), strm(c29Req(0, 1, 0, false, 0, "panic")), del)
+	add("two DELETEs during a call", []int{0, 0, 0, 1, 2, 3, 1, 3},
+		open(1), c29Req(0, 1, 0, false, 0, "err"), del, del)
+	add("DELETE during a call, then resume", []int{0, 0, 0, 1, 2, 3, 1, 3, 3},
+		open(1), c29Req(0, 1, 0, false, 0, "ok"), del, c29Req(0, 1, 0, false, 0, "ok"))
+	add("session opened inside a stream turn, DELETE during a later unary call", []int{0, 0, 0, 1, 2, 1},
+		strm(open(1)), c29Req(0, 1, 0, false, 0, "ok"), del)
+	add("expired while held: a DELETE's token resolution evicts it under the call and answers 200 (expiry, not teardown)", []int{0, 0, 0, 1, 2, 3, 1},
+		open(1), c29Req(0, 1, 0, false, 0, "ok"), c29Prog{Kind: "adv", D: 200}, del)
 	add("default ttl from registry (dttl) and from package default", nil,
 		c29Req(0, 1, -2, true, 0, "ok", "open"), c29Prog{Kind: "adv", D: 200}, c29Req(0, 1, 0, false, 0, "ok"), c29Prog{Kind: "adv", D: 100}, c29Req(0, 1, 0, false, 0, "ok"))
 	out = append(out, c29In{DTTL: 0, Note: "package default ttl 300", Sched: seq(5), Progs: []c29Prog{
@@ -734,7 +844,7 @@ func c29Contention(r *rand.Rand) c29In {
 	for i := 0; i < k; i++ {
 		tk := r.Intn(nOpen)
 		switch x := r.Intn(10); {
-		case x < 6:
+		case x < 5:
 			var body []string
 			switch r.Intn(4) {
 			case 0:
@@ -748,7 +858,9 @@ func c29Contention(r *rand.Rand) c29In {
 			if r.Intn(8) == 0 {
 				cc = 3 - c
 			}
-			ps = append(ps, c29Req(0, cc, tk, r.Intn(2) == 0, 150, outs[r.Intn(3)], body...))
+			q := c29Req(0, cc, tk, r.Intn(2) == 0, 150, outs[r.Intn(3)], body...)
+			q.Strm = r.Intn(4) == 0
+			ps = append(ps, q)
 		case x < 8:
 			ps = append(ps, c29Prog{Kind: "del", W: 0, C: c, Tk: tk})
 		case x < 9:
@@ -826,7 +938,9 @@ func c29Gen(r *rand.Rand, n int, tier string) []c29In {
 						body = []string{"open"}
 					}
 				}
-				ps = append(ps, c29Req(w, c, tk, r.Intn(3) != 0, ttls[r.Intn(len(ttls))], outs[r.Intn(len(outs))], body...))
+				q := c29Req(w, c, tk, r.Intn(3) != 0, ttls[r.Intn(len(ttls))], outs[r.Intn(len(outs))], body...)
+				q.Strm = r.Intn(4) == 0
+				ps = append(ps, q)
 			case x < 74:
 				tk := pickTok()
 				w, c := ownerOf(tk)
@@ -865,6 +979,6 @@ func c29Gen(r *rand.Rand, n int, tier string) []c29In {
 }
 
 func init() {
-	Register("C29", "boundary histories and forced schedules first (identity/worker/garbage isolation, expiry inline and by reaper, delete, drain, shutdown, panics, same-session blocking, different-session overlap, close/delete/expiry/shutdown races), then random programs of 3-10 threads over 2 workers x 3 callers (20% with all 7 callers incl. NUL-domain and arbitrary token refs), 1/3 sequential histories and 2/3 random interleavings; TTLs in {default,150,250,350}s and clock shifts in {40,120,200}s so no expiry falls on a boundary (boundary cases use 100s steps against TTLs = 50 mod 100); non-trivial = a session was resumed, a state was closed or a request got session_lost; distinct = distinct input JSON",
+	Register("C29", "boundary histories and forced schedules first (DELETE during a unary call / a stream turn / two DELETEs / DELETE then resume, identity/worker/garbage isolation, expiry inline and by reaper, delete, drain, shutdown, panics, same-session blocking, different-session overlap, close/delete/expiry/shutdown races), then random programs of 3-10 threads over 2 workers x 3 callers (20% with all 7 callers incl. NUL-domain and arbitrary token refs), 1/3 sequential histories and 2/3 random interleavings; TTLs in {default,150,250,350}s and clock shifts in {40,120,200}s so no expiry falls on a boundary (boundary cases use 100s steps against TTLs = 50 mod 100); 25% of requests run their script inside a producer stream's first turn; non-trivial = a session was resumed, a state was closed or a request got session_lost; distinct = distinct input JSON",
 		c29Gen, c29Run)
 }
